@@ -228,6 +228,8 @@ func runC11(c *Ctx) {
 	c.rule("R-EDIT-OPTABLE", 6, "Op ↔ fields as documented on every Edit literal with a constant opcode")
 	c.rule("R-OP-EXHAUSTIVE", 3, "every EditOp switch is exhaustive or has a strict default")
 	ruleSiblingGuard(c, "slice")
+	c.rule("R-LCS-FRESH", 1, "the common subsequence the script is built from is computed, never one of the inputs handed back (except an empty one)")
+	ruleResultNotInput(c, "R-LCS-FRESH", []string{"LCSFunc"})
 
 	esf := P.Func("slice", "", "editScriptFunc")
 	es := P.Func("slice", "", "EditScript")
